@@ -412,7 +412,13 @@ def check_case(ctx, case):
         if om.ok and numpy.asarray(om.value).shape == want_mag.shape:
             for k in range(len(edges)):
                 st_ = ["magnitude >= %r" % edges[k]] + (["magnitude < %r" % edges[k + 1]] if k + 1 < len(edges) else [])
-                of = call(lambda: cat().filter(st_, in_place=False).event_count)
+                def twice():
+                    # the equivalent filter applied to ONE catalog object twice: first not in place, then in place
+                    c_ = cat()
+                    first = c_.filter(st_, in_place=False).event_count
+                    second = c_.filter(st_, in_place=True).event_count
+                    return first if first == second else (first, second)
+                of = call(twice if k % 2 else (lambda: cat().filter(st_, in_place=False).event_count))
                 if not of.ok:
                     ctx.unexpected(of, "filter")
                     break
